@@ -1,8 +1,12 @@
-(* C07: the laws used by proofs/StreamKeyProofs.v are inhabited (an injective
-   "HKDF" and an ideal segment AEAD that accepts exactly what was sealed), and
-   concrete honest / tampered streams compute as the theorems say. *)
+(* C07: ONE instance for all key-level / keyset-level theorems: an injective
+   "HKDF", a toy segment cipher that is CORRECT for all keys, nonces and
+   segments (checksum + 12 zero bytes = 16-byte tag), the keyset
+   [decoy with the parameters of k; k].  The round-trip premises hold of it, the
+   per-instance premises of the manipulation corollaries hold for every
+   tampered stream listed, and the forgery event of the reductions is real (a
+   constant MAC makes AES-CTR-HMAC accept a modified segment). *)
 From Coq Require Import List NArith Bool Arith Lia.
-From Tink Require Import Bytes Stream StreamProofs StreamIO StreamIOProofs StreamKeyProofs.
+From Tink Require Import Bytes Stream StreamProofs StreamIO StreamIOProofs StreamReduction StreamKeyProofs StreamKeyReduction.
 Import ListNotations.
 Open Scope nat_scope.
 
@@ -19,96 +23,164 @@ Proof.
   apply (app_inv_length _ _ _ _ H3) in H4. destruct H4 as (-> & ->). auto.
 Qed.
 
-(* "AES-GCM" with a 16-byte tag; the opener is ideal: under the one key K0 it
-   accepts exactly the sealed segments of the logged stream, under any other
-   key nothing *)
+(* "AES-GCM": FNV checksum over key || nonce || segment, 16-byte tag *)
 Definition ex_seal (K N s : bytes) : bytes := toy_encs (K ++ N) s ++ zeros 12.
-Definition ex_open (K0 pre : bytes) (ss : list bytes) (K N c : bytes) : option bytes :=
-  if beq K K0 then ideal_decs (ex_seal K0) 12 pre ss N c else None.
+Definition ex_open (K N c : bytes) : option bytes :=
+  if length c <? 16 then None else
+  if beq (skipn (length c - 12) c) (zeros 12) then toy_decs (K ++ N) (firstn (length c - 12) c) else None.
 Definition ex_ctr (K iv x : bytes) : bytes := x.
-Definition ex_hmac (h : hash) (K m : bytes) : bytes := [].
+(* a MAC without any authenticity: constant *)
+Definition ex_hmac (h : hash) (K m : bytes) : bytes := zeros (digest_size h).
+
+(* the correctness laws of C07_key_roundtrip / C07_keyset_roundtrip *)
+Lemma ex_laws :
+  (forall k n p, length (ex_seal k n p) = length p + 16) /\
+  (forall k n p, ex_open k n (ex_seal k n p) = Some p) /\
+  (forall k iv x, length (ex_ctr k iv x) = length x) /\
+  (forall k iv x, ex_ctr k iv (ex_ctr k iv x) = x) /\
+  (forall h k m, length (ex_hmac h k m) = digest_size h).
+Proof.
+  assert (L : forall k n p, length (ex_seal k n p) = length p + 16).
+  { intros. unfold ex_seal. rewrite app_length, toy_len, zeros_length. lia. }
+  split; [exact L|]. split; [|repeat split; intros; apply zeros_length].
+  intros k n p. unfold ex_open. rewrite L. destruct (Nat.ltb_spec (length p + 16) 16); [lia|].
+  unfold ex_seal.
+  assert (E : length p + 16 - 12 = length (toy_encs (k ++ n) p)) by (rewrite toy_len; lia).
+  rewrite E, skipn_app, Nat.sub_diag, skipn_all, skipn_O, app_nil_l, beq_refl.
+  rewrite firstn_app, Nat.sub_diag, firstn_all, firstn_O, app_nil_r. apply toy_dec_enc.
+Qed.
 
 Definition ex_mk : bytes := [1; 2; 3; 4; 5; 6; 7; 8; 9; 10; 11; 12; 13; 14; 15; 16]%N.
 Definition ex_mk2 : bytes := [2; 2; 3; 4; 5; 6; 7; 8; 9; 10; 11; 12; 13; 14; 15; 16]%N.
 Definition ex_k : skey := GcmHkdf ex_mk SHA256 16 44 0.
 Definition ex_k2 : skey := GcmHkdf ex_mk2 SHA256 16 44 0.      (* decoy: same parameters, other key material *)
+Definition ex_keys : list skey := [ex_k2; ex_k].
 Definition ex_salt : bytes := [21; 22; 23; 24; 25; 26; 27; 28; 29; 30; 31; 32; 33; 34; 35; 36]%N.
 Definition ex_prefix : bytes := [41; 42; 43; 44; 45; 46; 47]%N.
 Definition ex_aad : bytes := [5; 6]%N.
 Definition ex_p : bytes := [1; 2; 3; 4; 5; 6]%N.                (* 4 bytes fit into the first segment *)
-Definition ex_K0 : bytes := fst (derive ex_hkdf ex_k ex_salt ex_aad).
-Definition ex_ss : list bytes := segments 28 24 ex_p.
-Definition ex_gopen := ex_open ex_K0 ex_prefix ex_ss.
-
 Definition ex_ct : bytes := key_ciphertext ex_hkdf ex_seal ex_ctr ex_hmac ex_k ex_salt ex_prefix ex_aad ex_p.
+Definition ex_sz : list nat := [3; 0; 3; 3; 3; 3].
 Definition flip (i : nat) (l : bytes) : bytes := firstn i l ++ [N.lxor (nth i l 0%N) 1] ++ skipn (S i) l.
+
 Definition ex_read (aad' c' : bytes) (sizes : list nat) :=
-  key_read ex_hkdf ex_gopen ex_ctr ex_hmac src read_full ex_k aad' (mkSrc c' None) sizes.
+  key_read ex_hkdf ex_open ex_ctr ex_hmac src read_full ex_k aad' (mkSrc c' None) sizes.
 Definition ex_ksread (aad' c' : bytes) (sizes : list nat) :=
-  keyset_read ex_hkdf ex_gopen ex_ctr ex_hmac [ex_k2; ex_k] aad' (mkSrc c' None) sizes.
+  keyset_read ex_hkdf ex_open ex_ctr ex_hmac ex_keys aad' (mkSrc c' None) sizes.
 
-(* the three laws of key_manipulation_detected hold of this instance, for all inputs *)
-Lemma ex_laws :
-  key_valid ex_k = true /\ length ex_salt = k_dk ex_k /\ length ex_prefix = nonce_prefix_size /\
-  seg_auth_law ex_hkdf ex_seal ex_gopen ex_ctr ex_hmac ex_k ex_salt ex_prefix ex_aad ex_p /\
-  (forall salt' aad', other_key_law ex_hkdf ex_gopen ex_ctr ex_hmac ex_k ex_salt ex_aad salt' aad') /\
-  (forall salt' aad', hkdf_no_collision ex_hkdf ex_k ex_salt ex_aad salt' aad').
+(* ------------------------------------------------------------------ *)
+(* deciding the per-instance premises                                  *)
+(* ------------------------------------------------------------------ *)
+Section Checkers.
+  Variable k : skey.
+  Variables salt prefix aad p : bytes.
+  Local Notation sk := (derive ex_hkdf k salt aad).
+  Local Notation ss := (segments (k_cseg k - k_tag k) (k_foff k + hdr_len k) p).
+  Local Notation SENC := (seg_enc ex_seal ex_ctr ex_hmac).
+  Local Notation SDEC := (seg_dec ex_open ex_ctr ex_hmac).
+
+  Definition written_b (sk' : bytes * bytes) (N c : bytes) : bool :=
+    beq (fst sk') (fst sk) && beq (snd sk') (snd sk) &&
+    existsb (fun i => beq N (nonce_i k prefix p i) && beq c (SENC k sk N (nth i ss []))) (seq 0 (length ss)).
+
+  Lemma written_b_sound sk' N c : written_b sk' N c = true ->
+    written ex_hkdf ex_seal ex_ctr ex_hmac k salt prefix aad p sk' N c.
+  Proof.
+    unfold written_b. intros H. apply andb_true_iff in H. destruct H as (H & He).
+    apply andb_true_iff in H. destruct H as (H1 & H2). apply beq_eq in H1, H2.
+    apply existsb_exists in He. destruct He as (i & Hi & Hb). apply in_seq in Hi.
+    apply andb_true_iff in Hb. destruct Hb as (B1 & B2). apply beq_eq in B1, B2.
+    split; [destruct sk', (derive ex_hkdf k salt aad); cbn in *; congruence|].
+    exists i. split; [lia|]. split; assumption.
+  Qed.
+
+  (* no triple presented by this run is a forgery *)
+  Definition no_forgery_b (c' aad' : bytes) (sizes : list nat) : bool :=
+    let sk' := derive ex_hkdf k (salt_field k c') aad' in
+    forallb (fun q => match SDEC k sk' (fst q) (snd q) with None => true | Some _ => written_b sk' (fst q) (snd q) end)
+            (key_presented ex_hkdf ex_open ex_ctr ex_hmac k aad' (mkSrc c' None) sizes).
+
+  Lemma no_forgery_b_sound c' aad' sizes : no_forgery_b c' aad' sizes = true ->
+    forall N c, In (N, c) (key_presented ex_hkdf ex_open ex_ctr ex_hmac k aad' (mkSrc c' None) sizes) ->
+      SDEC k (derive ex_hkdf k (salt_field k c') aad') N c <> None ->
+      written ex_hkdf ex_seal ex_ctr ex_hmac k salt prefix aad p (derive ex_hkdf k (salt_field k c') aad') N c.
+  Proof.
+    unfold no_forgery_b. intros H N c Hin Hd. rewrite forallb_forall in H. specialize (H (N, c) Hin). cbn [fst snd] in H.
+    destruct (SDEC k _ N c); [apply written_b_sound; exact H|congruence].
+  Qed.
+
+  Lemma ex_no_collision c' aad' : ~ hkdf_collision ex_hkdf k salt aad c' aad'.
+  Proof. intros (Hne & Heq). apply ex_hkdf_inj in Heq. destruct Heq as (_ & E1 & E2). destruct Hne; congruence. Qed.
+End Checkers.
+
+(* the writer's own segments decrypt (from the correctness laws) *)
+Lemma ex_own : own_segments_decrypt ex_hkdf ex_seal ex_open ex_ctr ex_hmac ex_k ex_salt ex_prefix ex_aad ex_p.
 Proof.
-  split; [reflexivity|]. split; [reflexivity|]. split; [reflexivity|]. split; [|split].
-  - intros N c s. cbn [seg_dec ex_k seg_enc]. destruct (length c <? 16); [discriminate|].
-    unfold ex_gopen, ex_open. fold ex_K0. rewrite beq_refl. intros H.
-    apply ideal_decs_auth in H. exact H.
-  - intros salt' aad' Hne N c. cbn [seg_dec ex_k]. destruct (length c <? 16); [reflexivity|].
-    unfold ex_gopen, ex_open. destruct (beq _ ex_K0) eqn:E; [|reflexivity].
-    exfalso. apply Hne. apply beq_eq in E. unfold ex_K0 in E. cbn [derive ex_k fst] in *. rewrite E. reflexivity.
-  - intros salt' aad' Hne Heq. cbn [k_hash k_main k_dlen ex_k] in Heq.
-    apply ex_hkdf_inj in Heq. destruct Heq as (_ & -> & ->). destruct Hne; congruence.
+  destruct ex_laws as (L1 & L2 & L3 & L4 & L5).
+  intros i _. exact (seg_dec_enc ex_seal ex_open ex_ctr ex_hmac L1 L2 L4 L5 ex_k _ _ _ eq_refl).
 Qed.
 
-(* LAW 4 for the keyset [decoy; k] *)
-Lemma ex_keys_law c' aad' :
-  other_keys_law ex_hkdf ex_gopen ex_ctr ex_hmac ex_k [ex_k2; ex_k] c' aad'.
+(* the decoy does not accept the first segment it reads, for each stream below *)
+Definition ex_tampered : list (bytes * bytes) :=      (* (associated data, stream) *)
+  [ (ex_aad, flip 0 ex_ct); (ex_aad, flip 1 ex_ct); (ex_aad, flip 16 ex_ct); (ex_aad, flip 17 ex_ct);
+    (ex_aad, flip 23 ex_ct); (ex_aad, flip 24 ex_ct); (ex_aad, flip 61 ex_ct);
+    (ex_aad, firstn 23 ex_ct); (ex_aad, firstn 44 ex_ct); (ex_aad, ex_ct ++ [0%N]);
+    ([5; 7]%N, ex_ct); ([], ex_ct) ].
+
+Lemma ex_decoy_rejects a c : In (a, c) ((ex_aad, ex_ct) :: ex_tampered) ->
+  forall ki, In ki ex_keys -> ki = ex_k \/ ~ first_accept ex_hkdf ex_open ex_ctr ex_hmac ki a (mkSrc c None).
 Proof.
-  intros ki [<-|[<-|[]]]; [right|left; reflexivity].
-  intros N c. cbn [seg_dec ex_k2]. destruct (length c <? 16); [reflexivity|].
-  unfold ex_gopen, ex_open. destruct (beq _ ex_K0) eqn:E; [|reflexivity].
-  exfalso. apply beq_eq in E. unfold ex_K0 in E. cbn [derive ex_k ex_k2 fst] in E.
-  apply ex_hkdf_inj in E. destruct E as (E & _). discriminate.
+  intros Hin ki [<-|[<-|[]]]; [right|left; reflexivity].
+  repeat (destruct Hin as [E|Hin]; [inversion E; subst a c; unfold first_accept; vm_compute; tauto|]).
+  destruct Hin.
 Qed.
 
-(* honest and tampered streams, single key and keyset [decoy; k] *)
+Lemma ex_no_forgery a c : In (a, c) ((ex_aad, ex_ct) :: ex_tampered) ->
+  no_forgery_b ex_k ex_salt ex_prefix ex_aad ex_p c a ex_sz = true.
+Proof.
+  intros Hin.
+  repeat (destruct Hin as [E|Hin]; [inversion E; subst a c; vm_compute; reflexivity|]).
+  destruct Hin.
+Qed.
+
+(* honest and tampered streams, single key and keyset [decoy; k], as computed *)
 Example ex_runs :
-  length ex_ct = 62 /\ hdr_len ex_k = 24 /\ length ex_ss = 2 /\
-  let sz := [3; 0; 3; 3; 3; 3] in
-  ex_read ex_aad ex_ct sz = (ex_p, AtEof) /\
-  ex_read ex_aad (flip 0 ex_ct) sz = ([], Failed) /\              (* header length byte *)
-  ex_read ex_aad (flip 1 ex_ct) sz = ([], Failed) /\              (* first salt byte *)
-  ex_read ex_aad (flip 16 ex_ct) sz = ([], Failed) /\             (* last salt byte *)
-  ex_read ex_aad (flip 17 ex_ct) sz = ([], Failed) /\             (* first nonce-prefix byte *)
-  ex_read ex_aad (flip 23 ex_ct) sz = ([], Failed) /\             (* last nonce-prefix byte *)
-  ex_read ex_aad (flip 24 ex_ct) sz = ([], Failed) /\             (* first segment *)
-  ex_read ex_aad (flip 61 ex_ct) sz = ([1; 2; 3; 4]%N, Failed) /\ (* last segment: first one was delivered *)
-  ex_read ex_aad (firstn 23 ex_ct) sz = ([], Failed) /\           (* cut inside the header: constructor error *)
-  ex_read ex_aad (firstn 44 ex_ct) sz = ([], Failed) /\            (* last segment dropped: segment 0 is not a last segment *)
-  ex_read ex_aad (ex_ct ++ [0%N]) sz = ([1; 2; 3; 4]%N, Failed) /\  (* a byte appended *)
-  ex_read [5; 7]%N ex_ct sz = ([], Failed) /\                     (* other associated data *)
-  ex_read [] ex_ct sz = ([], Failed) /\
-  ex_ksread ex_aad ex_ct sz = (ex_p, AtEof) /\                    (* keyset: decoy is tried first, bytes replayed *)
-  ex_ksread ex_aad (flip 1 ex_ct) sz = ([], Failed) /\
-  ex_ksread ex_aad (flip 17 ex_ct) sz = ([], Failed) /\
-  ex_ksread ex_aad (flip 0 ex_ct) sz = ([], Failed) /\
-  ex_ksread [5; 7]%N ex_ct sz = ([], Failed) /\
-  ex_ksread ex_aad (firstn 44 ex_ct) sz = ([], Failed) /\
-  ex_ksread ex_aad (flip 61 ex_ct) sz = ([1; 2; 3; 4]%N, Failed).
+  length ex_ct = 62 /\ hdr_len ex_k = 24 /\
+  ex_read ex_aad ex_ct ex_sz = (ex_p, AtEof) /\
+  ex_ksread ex_aad ex_ct ex_sz = (ex_p, AtEof) /\                 (* decoy tried first, bytes replayed *)
+  map (fun ac => ex_read (fst ac) (snd ac) ex_sz) ex_tampered =
+    [([], Failed); ([], Failed); ([], Failed); ([], Failed); ([], Failed); ([], Failed);
+     ([1; 2; 3; 4]%N, Failed);                                     (* last segment altered: segment 0 was delivered *)
+     ([], Failed); ([], Failed); ([1; 2; 3; 4]%N, Failed); ([], Failed); ([], Failed)] /\
+  map (fun ac => ex_ksread (fst ac) (snd ac) ex_sz) ex_tampered =
+  map (fun ac => ex_read (fst ac) (snd ac) ex_sz) ex_tampered.
 Proof. vm_compute. repeat split; reflexivity. Qed.
+
+(* THE FORGERY EVENT IS REAL.  AES-CTR-HMAC with the constant MAC: a segment whose
+   body was altered is accepted, wrong bytes are delivered and the stream ends in
+   a clean EOF; the altered (nonce, segment) pair is presented, decrypts, was never
+   written, and its tag is a valid "HMAC" of a message the writer never authenticated *)
+Definition ex_kh : skey := CtrHmac ex_mk SHA256 16 SHA256 16 44 0.
+Definition ex_cth : bytes := key_ciphertext ex_hkdf ex_seal ex_ctr ex_hmac ex_kh ex_salt ex_prefix ex_aad ex_p.
+Example ex_forgery_event_is_real :
+  let c' := flip 24 ex_cth in
+  let N0 := nonce_i ex_kh ex_prefix ex_p 0 in
+  let c0 := firstn 20 (skipn 24 c') in
+  key_read ex_hkdf ex_open ex_ctr ex_hmac src read_full ex_kh ex_aad (mkSrc c' None) ex_sz =
+    ([0; 2; 3; 4; 5; 6]%N, AtEof) /\
+  In (N0, c0) (key_presented ex_hkdf ex_open ex_ctr ex_hmac ex_kh ex_aad (mkSrc c' None) ex_sz) /\
+  seg_dec ex_open ex_ctr ex_hmac ex_kh (derive ex_hkdf ex_kh ex_salt ex_aad) N0 c0 = Some [0; 2; 3; 4]%N /\
+  written_b ex_kh ex_salt ex_prefix ex_aad ex_p (derive ex_hkdf ex_kh ex_salt ex_aad) N0 c0 = false /\
+  skipn 4 c0 = firstn 16 (ex_hmac SHA256 (snd (derive ex_hkdf ex_kh ex_salt ex_aad)) (N0 ++ firstn 4 c0)).
+Proof. vm_compute. repeat split; try reflexivity. left. reflexivity. Qed.
 
 (* a source that delivers 1, 2, 3, 1, 2, 3, ... bytes per call and returns io.EOF
    together with the last bytes: same outcome (instance of key_read_short_reads) *)
 Example ex_short_reads :
   let sc := mkSched (fun i => 1 + i mod 3) (fun _ => true) in
   (forall i, 0 < sz sc i) /\
-  key_read ex_hkdf ex_gopen ex_ctr ex_hmac ssrc (read_full_total (sread sc)) ex_k ex_aad
-           (mkSS 0 (mkSrc ex_ct None)) [3; 0; 3; 3; 3; 3] = (ex_p, AtEof).
+  key_read ex_hkdf ex_open ex_ctr ex_hmac ssrc (read_full_total (sread sc)) ex_k ex_aad
+           (mkSS 0 (mkSrc ex_ct None)) ex_sz = (ex_p, AtEof).
 Proof. split; [intros i; cbn; lia|]. vm_compute. reflexivity. Qed.
 
 (* constructor faults *)
@@ -120,69 +192,3 @@ Example ex_constructor_faults :
     (None, mkSink (firstn 23 ex_ct) (Some 23)) /\
   fst (new_enc_writer ex_hkdf ex_k (ex_salt ++ ex_prefix) ex_aad (mkSink [] (Some 24))) <> None.
 Proof. vm_compute. repeat split; discriminate. Qed.
-
-(* ------------------------------------------------------------------ *)
-(* an instance for keyset_read_honest: a segment cipher that is correct  *)
-(* for ALL keys, nonces and segments, and a decoy key of the same        *)
-(* parameters that rejects the beginning of the honest stream            *)
-(* ------------------------------------------------------------------ *)
-Definition hn_open (K N c : bytes) : option bytes :=
-  if length c <? 16 then None else
-  if beq (skipn (length c - 12) c) (zeros 12) then toy_decs (K ++ N) (firstn (length c - 12) c) else None.
-Definition hn_hmac (h : hash) (K m : bytes) : bytes := zeros (digest_size h).
-
-Lemma hn_laws :
-  (forall k n p, length (ex_seal k n p) = length p + 16) /\
-  (forall k n p, hn_open k n (ex_seal k n p) = Some p) /\
-  (forall k iv x, length (ex_ctr k iv x) = length x) /\
-  (forall k iv x, ex_ctr k iv (ex_ctr k iv x) = x) /\
-  (forall h k m, length (hn_hmac h k m) = digest_size h).
-Proof.
-  assert (L : forall k n p, length (ex_seal k n p) = length p + 16).
-  { intros. unfold ex_seal. rewrite app_length, toy_len, zeros_length. lia. }
-  split; [exact L|]. split; [|repeat split; intros; apply zeros_length].
-  intros k n p. unfold hn_open. rewrite L. destruct (Nat.ltb_spec (length p + 16) 16); [lia|].
-  unfold ex_seal.
-  assert (E : length p + 16 - 12 = length (toy_encs (k ++ n) p)) by (rewrite toy_len; lia).
-  rewrite E, skipn_app, Nat.sub_diag, skipn_all, skipn_O, app_nil_l, beq_refl.
-  rewrite firstn_app, Nat.sub_diag, firstn_all, firstn_O, app_nil_r. apply toy_dec_enc.
-Qed.
-
-Definition hn_ct : bytes := key_ciphertext ex_hkdf ex_seal ex_ctr hn_hmac ex_k ex_salt ex_prefix ex_aad ex_p.
-
-(* law 4 at the honest stream, by enumeration of the prefixes of what follows the header *)
-Definition prefixes_rejected (ki : skey) (c' aad' : bytes) : bool :=
-  let rest := skipn (hdr_len ki) c' in
-  forallb (fun last =>
-    forallb (fun i =>
-      match seg_dec hn_open ex_ctr hn_hmac ki (derive ex_hkdf ki (firstn (k_dk ki) (skipn 1 c')) aad')
-                    (nonce_of (k_nonce_size ki) (firstn nonce_prefix_size (skipn (1 + k_dk ki) c')) 0%N last)
-                    (firstn i rest) with
-      | None => true | Some _ => false end) (seq 0 (S (length rest)))) [true; false].
-
-Lemma prefixes_rejected_sound ki c' aad' : prefixes_rejected ki c' aad' = true ->
-  forall last c, (exists b, skipn (hdr_len ki) c' = c ++ b) ->
-    seg_dec hn_open ex_ctr hn_hmac ki (derive ex_hkdf ki (firstn (k_dk ki) (skipn 1 c')) aad')
-            (nonce_of (k_nonce_size ki) (firstn nonce_prefix_size (skipn (1 + k_dk ki) c')) 0%N last) c = None.
-Proof.
-  unfold prefixes_rejected. intros H last c (b & Hb).
-  rewrite forallb_forall in H.
-  assert (Hl : In last [true; false]) by (destruct last; cbn; auto).
-  specialize (H last Hl). rewrite forallb_forall in H.
-  specialize (H (length c)). rewrite Hb in H.
-  rewrite firstn_app, Nat.sub_diag, firstn_all, firstn_O, app_nil_r in H.
-  assert (Hi : In (length c) (seq 0 (S (length (c ++ b))))).
-  { apply in_seq. rewrite app_length. lia. }
-  specialize (H Hi). destruct (seg_dec _ _ _ _ _ _ _); [discriminate|reflexivity].
-Qed.
-
-Lemma hn_keys_law : other_keys_law ex_hkdf hn_open ex_ctr hn_hmac ex_k [ex_k2; ex_k] hn_ct ex_aad.
-Proof.
-  intros ki [<-|[<-|[]]]; [right|left; reflexivity].
-  apply prefixes_rejected_sound. vm_compute. reflexivity.
-Qed.
-
-(* the keyset [decoy; k] reads the honest stream: instance of keyset_read_honest, and computed *)
-Example hn_keyset_honest :
-  keyset_read ex_hkdf hn_open ex_ctr hn_hmac [ex_k2; ex_k] ex_aad (mkSrc hn_ct None) [3; 0; 3; 3; 3; 3] = (ex_p, AtEof).
-Proof. vm_compute. reflexivity. Qed.
